@@ -205,4 +205,326 @@ theorem clockOK_init (p : RParams ℝ) (k0 : ℝ) (x0 : List ℝ) :
   simp [opClock, Clock.tick, rInit]
   exact ⟨rfl, by simp, le_refl _⟩
 
+/-! ## staged force-constant schedule -/
+
+theorem stageLambda_zero (p : RParams ℝ) :
+    stageLambda p 0 = if p.lambdaSchedule.length ≠ 0 then p.lambdaSchedule.getD 0 0.0
+                       else (if p.decoupling then 1.0 else 0.0) := by
+  unfold stageLambda
+  split_ifs <;> simp [lit_zero]
+
+/-- stage and force constant after a staged force-constant update -/
+theorem kmu_staged (p : RParams ℝ) (c : Clock) (s : RState ℝ) (xs : List ℝ)
+    (hc : p.chgK = true) (hs : p.nstages ≠ 0) :
+    (kMovingUpdate p c s xs).stage =
+      (if (((decide (c.stepRelative = 0) && decide (c.it > p.firstStep)) || c.cont) = false ∧
+            Int.tmod (c.it - p.firstStep) p.nsteps = 0 ∧ c.it > p.firstStep) ∧ s.stage < p.nstages
+        then s.stage + 1 else s.stage) ∧
+    (kMovingUpdate p c s xs).k =
+      (if (((decide (c.stepRelative = 0) && decide (c.it > p.firstStep)) || c.cont) = false ∧
+            Int.tmod (c.it - p.firstStep) p.nsteps = 0 ∧ c.it > p.firstStep) ∧ s.stage < p.nstages
+        then kOfLambda p (stageLambda p (s.stage + 1))
+        else if c.it = p.firstStep then kOfLambda p (stageLambda p 0) else s.k) := by
+  rw [stageLambda_zero]
+  unfold kMovingUpdate
+  simp only [hc, hs, ne_eq, not_false_eq_true, if_true, Bool.not_true, Bool.false_eq_true, if_false]
+  generalize ((decide (c.stepRelative = 0) && decide (c.it > p.firstStep)) || c.cont) = rep
+  by_cases h0 : c.it = p.firstStep
+  · have hgt : ¬ c.it > p.firstStep := by omega
+    simp only [if_pos h0, hgt, and_false, false_and, if_false]
+    split_ifs <;> exact ⟨rfl, rfl⟩
+  · simp only [h0, if_false]
+    by_cases hadv : rep = false ∧ Int.tmod (c.it - p.firstStep) p.nsteps = 0 ∧ c.it > p.firstStep
+    · simp only [hadv, true_and, and_self, if_true]
+      split_ifs <;> exact ⟨rfl, rfl⟩
+    · simp only [hadv, false_and, if_false]
+      split_ifs <;> exact ⟨rfl, rfl⟩
+
+theorem cmu_none (p : RParams ℝ) (c : Clock) (s : RState ℝ) (h : p.targetCenters = none) :
+    centersMovingUpdate p c s = s := by
+  unfold centersMovingUpdate; rw [h]
+
+theorem preK_none (p : RParams ℝ) (c : Clock) (s : RState ℝ) (h : p.targetCenters = none) :
+    preK p c s = s := by
+  unfold preK; rw [cmu_none p c s h]; exact ite_self _
+
+theorem opPre_stage (p : RParams ℝ) (s : RState ℝ) (op : ROp ℝ) : (opPre p s op).stage = s.stage := by
+  cases op <;> rfl
+theorem opPre_k (p : RParams ℝ) (s : RState ℝ) (op : ROp ℝ) : (opPre p s op).k = s.k := by
+  cases op <;> rfl
+theorem opPre_centers (p : RParams ℝ) (s : RState ℝ) (op : ROp ℝ) : (opPre p s op).centers = s.centers := by
+  cases op <;> rfl
+
+/-- the "repeated step" flag and the clock readings, per kind of operation -/
+theorem rep_step {p : RParams ℝ} {c : Clock} {T : Int} (h : ClockOK p c T) (xs : List ℝ) :
+    (opClock c (.step xs)).stepRelative > 0 ∧ (opClock c (.step xs)).cont = false := by
+  rw [opClock_step h.first]
+  have := h.le
+  simp only [Clock.stepRelative]
+  exact ⟨by omega, trivial⟩
+
+theorem rep_cont {p : RParams ℝ} {c : Clock} {T : Int} (h : ClockOK p c T) (xs : List ℝ) :
+    (opClock c (.cont xs)).cont = true := by
+  rw [opClock_cont h.first]
+
+theorem rep_restart (c : Clock) (xs : List ℝ) :
+    (opClock c (.restart xs)).stepRelative = 0 ∧ (opClock c (.restart xs)).cont = false := by
+  rw [opClock_restart]
+  simp [Clock.stepRelative]
+
+structure KInv (p : RParams ℝ) (r : RRun ℝ) (T : Int) : Prop where
+  clock : ClockOK p r.clock T
+  stage : r.s.stage = min (T / p.nsteps) p.nstages
+  k : r.s.k = kOfLambda p (stageLambda p r.s.stage)
+
+theorem kInv_step (p : RParams ℝ) (hc : p.chgK = true) (hn : 0 < p.nsteps) (hs : 0 < p.nstages)
+    (htc : p.targetCenters = none) (r : RRun ℝ) (T : Int) (op : ROp ℝ) (hT : 0 ≤ T) (h : KInv p r T) :
+    KInv p (rApply p r op) (T + (opAdv op : Int)) := by
+  have hck := clockOK_op h.clock op
+  have hS := kmu_staged p (opClock r.clock op) (opPre p r.s op) (opXs op) hc (ne_of_gt hs)
+  rw [opPre_stage, opPre_k] at hS
+  have e1 : (rApply p r op).s.stage = (kMovingUpdate p (opClock r.clock op) (opPre p r.s op) (opXs op)).stage := by
+    rw [rApply_s, restraintStep_stage, preK_none _ _ _ htc]
+  have e2 : (rApply p r op).s.k = (kMovingUpdate p (opClock r.clock op) (opPre p r.s op) (opXs op)).k := by
+    rw [rApply_s, restraintStep_k, preK_none _ _ _ htc]
+  have hit := hck.it
+  have hst := h.stage
+  have hk := h.k
+  have fin : ∀ (c : Clock) (T' : Int), c.it = p.firstStep + T → T' = T →
+      (r.s.stage = min (T' / p.nsteps) p.nstages ∧
+       (if c.it = p.firstStep then kOfLambda p (stageLambda p 0) else r.s.k) =
+         kOfLambda p (stageLambda p r.s.stage)) := by
+    intro c T' hc' hT'
+    subst hT'
+    refine ⟨hst, ?_⟩
+    by_cases h0 : c.it = p.firstStep
+    · have hT0 : T' = 0 := by omega
+      have : r.s.stage = 0 := by
+        rw [hst, hT0, Int.zero_ediv]; omega
+      rw [if_pos h0, this]
+    · rw [if_neg h0]; exact hk
+  have key : (rApply p r op).s.stage = min ((T + (opAdv op : Int)) / p.nsteps) p.nstages ∧
+      (rApply p r op).s.k = kOfLambda p (stageLambda p (rApply p r op).s.stage) := by
+    rw [e1, e2, hS.1, hS.2]
+    cases op with
+    | step xs =>
+      obtain ⟨hr1, hr2⟩ := rep_step h.clock xs
+      have hgt : (opClock r.clock (.step xs)).it > p.firstStep := by rw [hit]; simp [opAdv]; omega
+      have hne : (opClock r.clock (.step xs)).it ≠ p.firstStep := ne_of_gt hgt
+      have hrep : ((decide ((opClock r.clock (.step xs)).stepRelative = 0) &&
+          decide ((opClock r.clock (.step xs)).it > p.firstStep)) || (opClock r.clock (.step xs)).cont) = false := by
+        rw [hr2, decide_eq_false (ne_of_gt hr1)]; rfl
+      have hsub : (opClock r.clock (.step xs)).it - p.firstStep = T + 1 := by rw [hit]; simp [opAdv]
+      have hmod : Int.tmod (T + 1) p.nsteps = (T + 1) % p.nsteps :=
+        Int.tmod_eq_emod_of_nonneg (by omega)
+      rw [hrep, hsub, hmod]
+      simp only [hgt, hne, and_true, true_and, if_false, opAdv, Nat.cast_one]
+      by_cases hm : (T + 1) % p.nsteps = 0
+      · rw [ediv_succ_of_dvd hn hm]
+        by_cases hlt : r.s.stage < p.nstages
+        · simp only [hm, hlt, and_self, if_true]
+          refine ⟨?_, trivial⟩
+          generalize T / p.nsteps = q at hst ⊢
+          omega
+        · simp only [hm, hlt, and_false, if_false]
+          refine ⟨?_, hk⟩
+          generalize T / p.nsteps = q at hst ⊢
+          omega
+      · rw [ediv_succ_of_not_dvd hn hm]
+        simp only [hm, false_and, if_false]
+        exact ⟨hst, hk⟩
+    | cont xs =>
+      have hr := rep_cont h.clock xs
+      have hnadv : ¬ ((((decide ((opClock r.clock (.cont xs)).stepRelative = 0) &&
+          decide ((opClock r.clock (.cont xs)).it > p.firstStep)) || (opClock r.clock (.cont xs)).cont) = false ∧
+          Int.tmod ((opClock r.clock (.cont xs)).it - p.firstStep) p.nsteps = 0 ∧
+          (opClock r.clock (.cont xs)).it > p.firstStep) ∧ r.s.stage < p.nstages) := by
+        rw [hr, Bool.or_true]; simp
+      rw [if_neg hnadv, if_neg hnadv]
+      exact fin _ _ (by rw [hit]; simp [opAdv]) (by simp [opAdv])
+    | restart xs =>
+      obtain ⟨hr1, hr2⟩ := rep_restart r.clock xs
+      have hnadv : ¬ ((((decide ((opClock r.clock (.restart xs)).stepRelative = 0) &&
+          decide ((opClock r.clock (.restart xs)).it > p.firstStep)) || (opClock r.clock (.restart xs)).cont) = false ∧
+          Int.tmod ((opClock r.clock (.restart xs)).it - p.firstStep) p.nsteps = 0 ∧
+          (opClock r.clock (.restart xs)).it > p.firstStep) ∧ r.s.stage < p.nstages) := by
+        rw [hr1, hr2]
+        rintro ⟨⟨h1, -, h3⟩, -⟩
+        simp [h3] at h1
+      rw [if_neg hnadv, if_neg hnadv]
+      exact fin _ _ (by rw [hit]; simp [opAdv]) (by simp [opAdv])
+  exact ⟨by rw [rApply_clock]; exact hck, key.1, key.2⟩
+
+theorem kInv_init (p : RParams ℝ) (hc : p.chgK = true) (hs : 0 < p.nstages)
+    (htc : p.targetCenters = none) (k0 : ℝ) (x0 : List ℝ) :
+    KInv p (rApply p (rInit p k0) (.step x0)) 0 := by
+  have hck := clockOK_init p k0 x0
+  have hS := kmu_staged p (opClock (rInit p k0).clock (.step x0)) (rInit p k0).s x0 hc (ne_of_gt hs)
+  have hit := hck.it
+  have hnadv : ¬ ((((decide ((opClock (rInit p k0).clock (.step x0)).stepRelative = 0) &&
+      decide ((opClock (rInit p k0).clock (.step x0)).it > p.firstStep)) ||
+        (opClock (rInit p k0).clock (.step x0)).cont) = false ∧
+      Int.tmod ((opClock (rInit p k0).clock (.step x0)).it - p.firstStep) p.nsteps = 0 ∧
+      (opClock (rInit p k0).clock (.step x0)).it > p.firstStep) ∧ (rInit p k0).s.stage < p.nstages) := by
+    rintro ⟨⟨-, -, h3⟩, -⟩; omega
+  rw [if_neg hnadv, if_neg hnadv, if_pos (by omega)] at hS
+  have e1 : (rApply p (rInit p k0) (.step x0)).s.stage = 0 := by
+    rw [rApply_s, restraintStep_stage, preK_none _ _ _ htc]; exact hS.1
+  have e2 : (rApply p (rInit p k0) (.step x0)).s.k = kOfLambda p (stageLambda p 0) := by
+    rw [rApply_s, restraintStep_k, preK_none _ _ _ htc]; exact hS.2
+  refine ⟨by rw [rApply_clock]; exact hck, ?_, ?_⟩
+  · rw [e1, Int.zero_ediv]; omega
+  · rw [e2, e1]
+
+theorem kStaged_run (p : RParams ℝ) (k0 : ℝ) (x0 : List ℝ) (ops : List (ROp ℝ))
+    (hc : p.chgK = true) (hn : 0 < p.nsteps) (hs : 0 < p.nstages) (htc : p.targetCenters = none) :
+    KInv p (rRun p (rInit p k0) (ROp.step x0 :: ops)) (advN ops : Int) := by
+  rw [rRun_cons]
+  have h := rRun_induct p (KInv p) (kInv_step p hc hn hs htc) ops _ 0 le_rfl
+    (kInv_init p hc hs htc k0 x0)
+  simpa using h
+
+/-! ### staged moving centres -/
+
+theorem ceil_succ_of_one {T n : Int} (hn : 1 < n) (h : (T + 1) % n = 1) :
+    (T + 1 + n - 1) / n = (T + n - 1) / n + 1 := by
+  have hn0 : 0 < n := by omega
+  have h1 := Int.mul_ediv_add_emod (T + 1) n
+  rw [h] at h1
+  set q := (T + 1) / n with hq
+  have hT : T = n * q := by linarith
+  have e1 : T + 1 + n - 1 = n * (q + 1) := by rw [hT]; ring
+  have e2 : (T + n - 1) / n = q :=
+    ((Int.ediv_emod_unique (r := n - 1) hn0).2 ⟨by rw [hT]; ring, by omega, by omega⟩).1
+  rw [e1, e2, Int.mul_ediv_cancel_left _ (ne_of_gt hn0)]
+
+theorem ceil_succ_of_ne_one {T n : Int} (hn : 1 < n) (h : (T + 1) % n ≠ 1) :
+    (T + 1 + n - 1) / n = (T + n - 1) / n := by
+  have hn0 : 0 < n := by omega
+  have e : T + 1 + n - 1 = (T + n - 1) + 1 := by ring
+  rw [e]
+  apply ediv_succ_of_not_dvd hn0
+  intro h0
+  apply h
+  have e' : T + n - 1 + 1 = T + 1 * n := by ring
+  rw [e', Int.add_mul_emod_self_right] at h0
+  have h1 := Int.mul_ediv_add_emod T n
+  rw [h0] at h1
+  have hT : T + 1 = 1 + n * (T / n) := by linarith
+  rw [hT, Int.add_mul_emod_self_left]
+  exact Int.emod_eq_of_lt (by omega) hn
+
+noncomputable def stagedCenters (p : RParams ℝ) (tgt : List ℝ) (st : Int) : List ℝ :=
+  List.zipWith (fun (pc : Option ℝ × ℝ) x => wrapVar pc.1 pc.2 x) (p.per.zip p.wrapC)
+    (List.zipWith (fun c0 c1 => lerpS c0 c1 ((st : ℝ) / (p.nstages : ℝ))) p.centers0 tgt)
+
+theorem cmu_staged (p : RParams ℝ) (c : Clock) (s : RState ℝ) (tgt : List ℝ)
+    (ht : p.targetCenters = some tgt) (hs : p.nstages ≠ 0) :
+    (centersMovingUpdate p c s).stage =
+      (if s.stage ≤ p.nstages ∧ c.stepRelative > 0 ∧ c.cont = false ∧
+          Int.tmod (c.it - p.firstStep) p.nsteps = 1 then s.stage + 1 else s.stage) ∧
+    (centersMovingUpdate p c s).centers =
+      (if s.stage ≤ p.nstages ∧ c.stepRelative > 0 ∧ c.cont = false ∧
+          Int.tmod (c.it - p.firstStep) p.nsteps = 1 then stagedCenters p tgt s.stage else s.centers) := by
+  unfold centersMovingUpdate
+  simp only [ht, hs, ne_eq, not_false_eq_true, if_true]
+  by_cases h1 : s.stage ≤ p.nstages
+  · by_cases h2 : c.stepRelative > 0 ∧ c.cont = false ∧ Int.tmod (c.it - p.firstStep) p.nsteps = 1
+    · simp only [h1, h2, and_self, if_true]
+      split_ifs <;> exact ⟨rfl, rfl⟩
+    · simp only [h1, h2, and_false, if_true, if_false]
+      split_ifs <;> exact ⟨rfl, rfl⟩
+  · simp only [h1, false_and, if_false]
+    split_ifs <;> exact ⟨rfl, rfl⟩
+
+theorem kmu_off (p : RParams ℝ) (c : Clock) (s : RState ℝ) (xs : List ℝ) (h : p.chgK = false) :
+    kMovingUpdate p c s xs = s := by
+  unfold kMovingUpdate; simp [h]
+
+theorem preK_not_walls (p : RParams ℝ) (c : Clock) (s : RState ℝ) (h : p.kind ≠ .walls) :
+    preK p c s = centersMovingUpdate p c s := by
+  unfold preK; rw [if_neg h]
+
+structure CInv (p : RParams ℝ) (tgt : List ℝ) (r : RRun ℝ) (T : Int) : Prop where
+  clock : ClockOK p r.clock T
+  stage : r.s.stage = min ((T + p.nsteps - 1) / p.nsteps) (p.nstages + 1)
+  centers : 1 ≤ r.s.stage → r.s.centers = stagedCenters p tgt (r.s.stage - 1)
+
+theorem cInv_step (p : RParams ℝ) (tgt : List ℝ) (ht : p.targetCenters = some tgt) (hk : p.kind ≠ .walls)
+    (hck : p.chgK = false) (hn : 1 < p.nsteps) (hs : 0 < p.nstages)
+    (r : RRun ℝ) (T : Int) (op : ROp ℝ) (hT : 0 ≤ T) (h : CInv p tgt r T) :
+    CInv p tgt (rApply p r op) (T + (opAdv op : Int)) := by
+  have hcl := clockOK_op h.clock op
+  have hS := cmu_staged p (opClock r.clock op) (opPre p r.s op) tgt ht (ne_of_gt hs)
+  rw [opPre_stage, opPre_centers] at hS
+  have e1 : (rApply p r op).s.stage = (centersMovingUpdate p (opClock r.clock op) (opPre p r.s op)).stage := by
+    rw [rApply_s, restraintStep_stage, kmu_off _ _ _ _ hck, preK_not_walls _ _ _ hk]
+  have e2 : (rApply p r op).s.centers = (centersMovingUpdate p (opClock r.clock op) (opPre p r.s op)).centers := by
+    rw [rApply_s, restraintStep_centers, kmu_off _ _ _ _ hck, preK_not_walls _ _ _ hk]
+  have hit := hcl.it
+  have hst := h.stage
+  have hcen := h.centers
+  have key : (rApply p r op).s.stage = min ((T + (opAdv op : Int) + p.nsteps - 1) / p.nsteps) (p.nstages + 1) ∧
+      (1 ≤ (rApply p r op).s.stage →
+        (rApply p r op).s.centers = stagedCenters p tgt ((rApply p r op).s.stage - 1)) := by
+    rw [e1, e2, hS.1, hS.2]
+    cases op with
+    | step xs =>
+      obtain ⟨hr1, hr2⟩ := rep_step h.clock xs
+      have hsub : (opClock r.clock (.step xs)).it - p.firstStep = T + 1 := by rw [hit]; simp [opAdv]
+      have hmod : Int.tmod (T + 1) p.nsteps = (T + 1) % p.nsteps :=
+        Int.tmod_eq_emod_of_nonneg (by omega)
+      rw [hsub, hmod]
+      simp only [hr1, hr2, true_and, opAdv, Nat.cast_one]
+      by_cases hm : (T + 1) % p.nsteps = 1
+      · rw [ceil_succ_of_one hn hm]
+        by_cases hle : r.s.stage ≤ p.nstages
+        · simp only [hm, hle, and_self, if_true]
+          refine ⟨?_, fun _ => by rw [add_sub_cancel_right]⟩
+          generalize (T + p.nsteps - 1) / p.nsteps = q at hst ⊢
+          omega
+        · simp only [hm, hle, false_and, if_false]
+          refine ⟨?_, hcen⟩
+          generalize (T + p.nsteps - 1) / p.nsteps = q at hst ⊢
+          omega
+      · rw [ceil_succ_of_ne_one hn hm]
+        simp only [hm, and_false, if_false]
+        exact ⟨hst, hcen⟩
+    | cont xs =>
+      have hr := rep_cont h.clock xs
+      simp only [hr, Bool.true_eq_false, false_and, and_false, if_false, opAdv, Nat.cast_zero, add_zero]
+      exact ⟨hst, hcen⟩
+    | restart xs =>
+      obtain ⟨hr1, hr2⟩ := rep_restart r.clock xs
+      simp only [hr1, gt_iff_lt, lt_irrefl, false_and, and_false, if_false, opAdv, Nat.cast_zero, add_zero]
+      exact ⟨hst, hcen⟩
+  exact ⟨by rw [rApply_clock]; exact hcl, key.1, key.2⟩
+
+theorem cInv_init (p : RParams ℝ) (tgt : List ℝ) (ht : p.targetCenters = some tgt) (hk : p.kind ≠ .walls)
+    (hck : p.chgK = false) (hn : 1 < p.nsteps) (hs : 0 < p.nstages) (k0 : ℝ) (x0 : List ℝ) :
+    CInv p tgt (rApply p (rInit p k0) (.step x0)) 0 := by
+  have hcl := clockOK_init p k0 x0
+  have hS := cmu_staged p (opClock (rInit p k0).clock (.step x0)) (rInit p k0).s tgt ht (ne_of_gt hs)
+  have hsr : (opClock (rInit p k0).clock (.step x0)).stepRelative = 0 := by
+    simp [opClock, Clock.tick, rInit, Clock.stepRelative]
+  simp only [hsr, gt_iff_lt, lt_irrefl, false_and, and_false, if_false] at hS
+  have e1 : (rApply p (rInit p k0) (.step x0)).s.stage = 0 := by
+    rw [rApply_s, restraintStep_stage, kmu_off _ _ _ _ hck, preK_not_walls _ _ _ hk]; exact hS.1
+  refine ⟨by rw [rApply_clock]; exact hcl, ?_, ?_⟩
+  · rw [e1, zero_add, Int.ediv_eq_zero_of_lt (by omega) (by omega)]; omega
+  · rw [e1]; intro h; omega
+
+theorem cStaged_run (p : RParams ℝ) (k0 : ℝ) (x0 : List ℝ) (ops : List (ROp ℝ)) (tgt : List ℝ)
+    (ht : p.targetCenters = some tgt) (hk : p.kind ≠ .walls) (hck : p.chgK = false)
+    (hn : 1 < p.nsteps) (hs : 0 < p.nstages) :
+    CInv p tgt (rRun p (rInit p k0) (ROp.step x0 :: ops)) (advN ops : Int) := by
+  rw [rRun_cons]
+  have h := rRun_induct p (CInv p tgt) (cInv_step p tgt ht hk hck hn hs) ops _ 0 le_rfl
+    (cInv_init p tgt ht hk hck hn hs k0 x0)
+  simpa using h
+
+theorem ceil_eq {T n : Int} (hn : 0 < n) : (T + n - 1) / n = (T - 1) / n + 1 := by
+  have e : T + n - 1 = (T - 1) + 1 * n := by ring
+  rw [e, Int.add_mul_ediv_right _ _ (ne_of_gt hn)]
+
 end Cv.C06
